@@ -232,6 +232,13 @@ func sysChild() {
 	out := bufio.NewWriter(os.Stdout)
 	for sc.Scan() {
 		line := sc.Text()
+		if strings.HasPrefix(line, "cluster ") {
+			bts, _ := json.Marshal(runCluster(root, line))
+			out.Write(bts)
+			out.WriteByte('\n')
+			out.Flush()
+			continue
+		}
 		var resp sysResp
 		func() {
 			r, err := parseSys(line)
@@ -389,6 +396,26 @@ func runSys(lines []string, ch *vh.Channel, orc *vh.Oracle, rep *vh.Report, o vh
 		}
 		line := lines[i]
 		i++
+		if strings.HasPrefix(line, "cluster ") {
+			var cr clusterResp
+			if err := json.Unmarshal(sc.Bytes(), &cr); err != nil {
+				orc.Error = "child output: " + err.Error()
+				break
+			}
+			m := kv(strings.Fields(line)[1:])
+			orc.Case(line, m["reps"] != "1" || strings.Contains(m["shard"], "1"), "cluster", "reps="+m["reps"])
+			switch {
+			case cr.Err != "":
+				orc.Error = "cluster child: " + cr.Err + " on " + line
+			case cr.Pages != cr.Want:
+				rep.Violate(vh.Violation{Site: "proxy/search/ingestor.go:Search", Class: "pages-differ-from-single-list-real-stores",
+					What: fmt.Sprintf("pages: %s ; single ordered list: %s", cr.Pages, cr.Want), Replay: []string{line}})
+			case cr.Meta != "":
+				rep.Violate(vh.Violation{Site: "proxy/search/ingestor.go:Search", Class: "total-or-histogram-differs-real-stores",
+					What: cr.Meta, Replay: []string{line}})
+			}
+			continue
+		}
 		var resp sysResp
 		if err := json.Unmarshal(sc.Bytes(), &resp); err != nil {
 			orc.Error = "child output: " + err.Error()
